@@ -205,7 +205,9 @@ def run_situation(repo, sit, order=None):
                 'param', name='extra', alias=None, position=len(pos),
                 default=0, value_type=vt)
         c.attrs['parameters'] = params
-        made[cid] = (tuple(pos), kw)
+        # in the form map_args itself answers in (a pair, a record ...)
+        from sa import delegmodel
+        made[cid] = delegmodel.mapping_shape(repo)[0](tuple(pos), kw)
         return made[cid]
 
     def spec_answer(tid_self, other):
